@@ -53,6 +53,10 @@ CHECKS = {
              text="Exhaustive over the bounded ballot space: all ballots of 1-3 voters on a dyadic weight/confidence grid incl. 0 and of 5 (thorough: 7) voters on vote kinds, for all seven strategies and EmergencyQuorum, default / fractional / count thresholds and min_voters 1..3, executed on the real aggregation code with stub voters; TLC evaluates NoSupportNoPermit, UnanimousPermits, BlockDefeatsUnanimous, CountsMatch on every record and Monotone on every improvement edge.",
              note="Trusted: TLC/SANY, stub voters via AgentProfile.agent. Dyadic grid so float ratios are exact. BAYESIAN is judged by the property clauses only (unanimity clause up to the default threshold).",
              ref="DESIGN.md section 4 C06"),
+ "C18": dict(technique="TLA+ spec (HealingLoops.tla: three bounded loops as step machines against scripted adversaries) model-checked with TLC over every script; every plan run on the real heal / supervise / transcribe_with_tools and its invocation counters judged by TLC (Trace_HealingLoops.tla)",
+             text="Exhaustive over the adversary family for limits 0..4: generator outcomes valid/invalid/echo/raise per attempt, provider tools/plain per round, and for the swarm 9 worker policies (never repeating, repeating, alternating, marker at step k, crash at step k) per worker x step limits 0..4 x three entropy thresholds (regeneration limits 3..4 sampled); TLC evaluates the budget clauses (generator calls, workers spawned, steps per worker, tool rounds + one final completion), error threading and result soundness on the recorded counters.",
+             note="Trusted: TLC/SANY, counting stubs. Error threading is judged against the error trace an independent Chaperone produces for the previous output.",
+             ref="DESIGN.md section 4 C18"),
 }
 NOT_APPLICABLE = []
 
